@@ -9,6 +9,7 @@ import (
 	"testing"
 
 	"github.com/tochemey/goakt/v4/internal/verif/vsched"
+	"github.com/tochemey/goakt/v4/internal/verif/vsync"
 )
 
 // C05 — the dispatcher never loses or duplicates a scheduled actor.
@@ -16,6 +17,7 @@ import (
 // globalQueueInitialCap (2) are overridden so spill, growth and stealHalf-into-full are reached.
 
 type c05Item struct {
+	long   bool // the turn stays open until the harness releases the hold
 	id     int
 	repush int // how many times runTurn re-schedules itself through the worker (pushLocal path)
 	h      *c05Harness
@@ -24,11 +26,17 @@ type c05Item struct {
 type c05Harness struct {
 	taken []string // "item@worker" in global order
 	count map[int]int
+	hold  *vsync.Mutex // held by the harness while "long turns" must stay open (nil = turns are instantaneous)
 }
 
 func (it *c05Item) runTurn(w *worker) {
 	it.h.taken = append(it.h.taken, fmt.Sprintf("%d@w%d", it.id, w.id))
 	it.h.count[it.id]++
+	if it.h.hold != nil && it.long {
+		// a long turn: the worker stays inside runTurn until the harness releases the hold
+		it.h.hold.Lock()
+		it.h.hold.Unlock()
+	}
 	if it.repush > 0 {
 		it.repush--
 		w.reschedule(it)
@@ -43,6 +51,7 @@ type c05Scenario struct {
 	closer  bool
 	bound   int
 	prefill map[int][]int // worker id -> item ids placed in that worker's local ring before the window opens
+	long    map[int]bool  // items whose turn stays open until every thread is quiescent (long handler)
 }
 
 func c05Queued(rq *readyQueue) []int {
@@ -93,7 +102,7 @@ func c05Run(t *testing.T, sc c05Scenario, c *vsched.Chooser) (out vsched.Outcome
 			ids := ids
 			s.Go(fmt.Sprintf("p%d", pi), func() {
 				for _, id := range ids {
-					it := &c05Item{id: id, h: h, repush: sc.repush[id]}
+					it := &c05Item{id: id, h: h, repush: sc.repush[id], long: sc.long[id]}
 					d.schedule(it)
 				}
 				pushersDone++
@@ -112,10 +121,24 @@ func c05Run(t *testing.T, sc c05Scenario, c *vsched.Chooser) (out vsched.Outcome
 			rq.cond.Broadcast()
 			rq.parkMu.Unlock()
 		})
+		if len(sc.long) > 0 {
+			h.hold = &vsync.Mutex{}
+			h.hold.Lock()
+		}
 		s.Start()
 		s.Run()
-		// ---- oracle (all controlled threads are parked, blocked or finished)
 		var v []vsched.Violation
+		if h.hold != nil {
+			// first quiescence, long turns still open: "no worker stays parked while work is queued":
+			// every item still sitting in a ring while some worker is parked in cond.Wait is a violation
+			// (the workers inside a long turn are busy, the parked ones are idle).
+			if q := c05Queued(rq); len(q) > 0 && rq.parked > 0 {
+				v = append(v, vsched.Fail("worker-parked-while-work-queued", "items %v sit in the ready queue while %d worker(s) are parked and the others are inside long turns; taken=%v; threads: %s", q, rq.parked, h.taken, s.Describe()))
+			}
+			h.hold.Unlock()
+			s.Run()
+		}
+		// ---- oracle (all controlled threads are parked, blocked or finished)
 		queued := c05Queued(rq)
 		if s.Wedged != "" {
 			out.Invalid = "wedged: " + s.Wedged
@@ -201,6 +224,9 @@ func TestVerifC05(t *testing.T) {
 		{name: "2w-2p2-repush", workers: 2, pushers: [][]int{{1, 2}, {3, 4}}, repush: map[int]int{1: 1, 3: 2}, bound: pb},
 		{name: "2w-1p4-repush-spill", workers: 2, pushers: [][]int{{1, 2, 3, 4}}, repush: map[int]int{1: 1, 2: 1, 3: 1, 4: 1}, bound: pb},
 		{name: "3w-2p2-steal", workers: 3, pushers: [][]int{{1, 2, 3}, {4, 5}}, repush: map[int]int{1: 2, 2: 2, 4: 2}, bound: vsched.Pick(1, 2)},
+		// long turns: two actors whose handlers stay open; each must get its own worker
+		{name: "2w-2long-items", workers: 2, pushers: [][]int{{1, 2}}, long: map[int]bool{1: true, 2: true}, bound: pb},
+		{name: "3w-2p-long+short", workers: 3, pushers: [][]int{{1, 2}, {3}}, long: map[int]bool{1: true, 3: true}, bound: vsched.Pick(1, 2)},
 		// non-initial states: a worker's local ring already holds several actors (multi-item steal,
 		// steal into a non-empty ring, local overflow spilling into the global ring)
 		{name: "2w-prefill3-steal", workers: 2, pushers: [][]int{{4}}, prefill: map[int][]int{0: {1, 2, 3}}, bound: pb},
